@@ -29,4 +29,38 @@ CHECKS = {
            "collisions, which cannot violate it."),
   "design_ref": "DESIGN.md §5 C20", "note": _NOTE,
   "technique": "static analysis: field/normaliser signature extraction from __eq__/__hash__ ASTs + formula evaluation of the bodies on abstract witness pairs (sort interpreted via source __lt__)"},
+ "C13": {
+  "text": ("Decides the inductive step of the recursive count for all trees of bounded arity: the function body, "
+           "with each recursive call replaced by a symbolic count c_i (induction hypothesis), must yield exactly the "
+           "polynomial prod_r sum_{k=min..max} e_k(c_1..c_n) for every well-formed relation cardinality with n<=4 "
+           "and pairs/triples of representative relations; leaf case 1; the constraints are never consulted (upper "
+           "bound). Hence estimate = exact tree count by structural induction. Not decided: arities beyond the box; "
+           "numeric agreement with an enumerator."),
+  "design_ref": "DESIGN.md §5 C13", "note": _NOTE,
+  "technique": "static analysis: symbolic inductive-step evaluation of the function AST (recursive calls summarised by polynomial variables) + polynomial identity"},
+ "C14": {
+  "text": ("Hoare-style step check of the worklist closure, decided over the finite cardinality abstraction: init "
+           "(result=worklist=[root]), loop body as transfer function (pops one feature, adds to result and worklist "
+           "exactly the children of its relations with min>=n, each once), exit (returns the result list). By induction "
+           "over iterations on a tree: root always included, each feature once, sound with constraints, exact "
+           "without. Plus: the operation class returns the helper's value for the model of the current execution."),
+  "design_ref": "DESIGN.md §5 C14", "note": _NOTE,
+  "technique": "static analysis: loop split + transfer-function evaluation of the loop body AST on abstract states over the order-type cardinality domain"},
+ "C15": {
+  "text": ("Inductive step of the recursive walk decided over the cardinality abstraction: entry registers exactly "
+           "{root}; at every abstract feature each child enters exactly one registered set, the walk continues exactly "
+           "once per child with that set, a child is merged into the parent's set only if min>=n (child<=>parent), "
+           "mandatory children are always merged, no empty set. By structural induction: partition, co-selection "
+           "sound, never finer than mandatory chains. Not decided: co-selection induced by constraints (not required)."),
+  "design_ref": "DESIGN.md §5 C15", "note": _NOTE,
+  "technique": "static analysis: inductive-step evaluation of the recursive function AST with recording stubs for recursive calls over abstract parent contexts"},
+ "C16": {
+  "text": ("Decides the shape of the six tree helpers: each is evaluated as a formula on an abstract tree family "
+           "realising every distinguishing situation (root-only, edge, chain, deepest leaf in the middle, several "
+           "relations, ratio needing rounding) against its definition, with no raise on the root-only model; ancestors "
+           "loop branch-free + chains 0..4 in order; variation points by a Hoare-style step check over all "
+           "well-formed cardinalities; operation classes return the helper's value. Not decided: aggregate operations "
+           "beyond the abstract family; corpus agreement."),
+  "design_ref": "DESIGN.md §5 C16", "note": _NOTE,
+  "technique": "static analysis: formula evaluation of helper ASTs on abstract trees; loop-step check for variation points; totality (no reachable raise) on the root-only model"},
 }
